@@ -14,6 +14,20 @@ theorem C01_cap_fits_length_field : constants.MaxPacketBodySize < 2 ^ 32 := by d
 /-- Side condition: the header sizes the reader assumes. -/
 theorem C01_header_sizes : constants.PacketTypeSize = 1 ∧ constants.PacketBodySizeBytes = 4 := by decide
 
+/-- T2 tie: the decisions of the reader, in source order — the cap is compared with `>` (a body or an
+inflated body of exactly `MaxPacketBodySize` bytes is accepted), as in `readPacket` / `decompress`. -/
+theorem cond_decompressData :
+    Cond.C01_decompressData =
+      ["estimatedSize > constants.MaxPacketBodySize", "err != nil", "n > int64(constants.MaxPacketBodySize)"] := by decide
+theorem cond_readPacketBody :
+    Cond.C01_readPacketBody = ["bodySize > constants.MaxPacketBodySize", "err != nil"] := by decide
+theorem cond_readPacketType : Cond.C01_readPacketType = ["err != nil", "n != constants.PacketTypeSize"] := by decide
+theorem cond_ReadPacket :
+    Cond.C01_ReadPacket =
+      ["err := ps.acquireReadLock(); err != nil", "err != nil", "packetType.IsHeartbeat()", "err != nil", "err != nil",
+       "packetType.IsEncrypted()", "packetType.IsCompressed()", "err != nil",
+       "packetType.IsJsonCommand() || packetType.IsCommandResp()", "err != nil"] := by decide
+
 /-- **Chunk independence** for *every* byte stream (valid encoding or not): the
 packets returned, the failure stage and the bytes left unread depend only on the
 concatenation of the chunks, never on where the transport cut them. -/
